@@ -21,7 +21,7 @@ CloseBlockMs(o) == IF o.proto = "netrpc" THEN 45000 ELSE 2000
 OneKillMs(o) ==
   (IF o.behaviour = "frozen" THEN CloseBlockMs(o) ELSE 0)
   + (IF o.behaviour \in {"ignore", "frozen"} THEN GraceMs ELSE IF o.behaviour = "delay" THEN o.delay_ms ELSE 0)
-  + (IF o.launch = "reattach" THEN 1000 ELSE 0)          \* the reattached client polls the pid once a second
+  + (IF o.launch \in {"reattach", "foreign"} THEN 1000 ELSE 0)   \* the reattached client polls the pid once a second
 MarkerExpected(o) == o.behaviour \in {"prompt", "busy", "delay"}
 
 Conforms(o) ==
